@@ -103,7 +103,8 @@ func keySiblings(self, p, level int) []Field {
 
 type keyType struct {
 	fs   []Field
-	prim int // field with the full input family (-1: reduced × reduced)
+	prim int              // field with the full input family (-1: reduced × reduced)
+	more map[int][]string // further number literals for the reduced family of a field
 }
 
 // keyTypes1: one field, every special key × specs.
@@ -116,13 +117,13 @@ func keyTypes1(level int, withPlain bool) []keyType {
 	for _, k := range names {
 		for _, f := range keySpecs(0, 1, level) {
 			f.Key = k
-			out = append(out, keyType{[]Field{f}, 0})
+			out = append(out, keyType{fs: []Field{f}, prim: 0})
 		}
 	}
 	if !withPlain { // the embedded struct occurs in the key-name groups only: with the plain key too
 		for _, f := range keySpecs(0, 1, level) {
 			if f.Kind == KEmbed {
-				out = append(out, keyType{[]Field{f}, 0})
+				out = append(out, keyType{fs: []Field{f}, prim: 0})
 			}
 		}
 	}
@@ -153,7 +154,7 @@ func keyTypes2(level int) []keyType {
 				fs := make([]Field, 2)
 				pf.Key, sf.Key = keyHeadA, keyHeadB
 				fs[p], fs[1-p] = pf, sf
-				out = append(out, keyType{fs, p})
+				out = append(out, keyType{fs: fs, prim: p})
 			}
 		}
 	}
@@ -165,7 +166,7 @@ func keyTypes2(level int) []keyType {
 			for _, sf := range keySiblings(1-p, p, level) {
 				fs := make([]Field, 2)
 				fs[p], fs[1-p] = pf, sf
-				out = append(out, keyType{fs, p})
+				out = append(out, keyType{fs: fs, prim: p})
 			}
 		}
 	}
@@ -184,9 +185,22 @@ func keyTypes2(level int) []keyType {
 						sf.Key = keyHeadA
 					}
 					fs[p], fs[1-p] = pf, sf
-					out = append(out, keyType{fs, p})
+					out = append(out, keyType{fs: fs, prim: p})
 				}
 			}
+		}
+	}
+	// (d) three fields: A "p.q" (int: required / optional × none / default / range / options), B "p.r" (optional
+	// int: supplies the head p) and C keyed by A's tail segment "q" at top level (required / optional int;
+	// values 3 and 100: inside and outside A's range, not among A's options)
+	for _, af := range keySpecs(0, 1, lvMicro) {
+		if af.Kind != KInt {
+			continue
+		}
+		for _, copt := range []int{OptNone, OptPlain} {
+			af.Key = keyHeadA
+			fs := []Field{af, {Kind: KInt, Rng: -1, Opt: OptPlain, Key: keyHeadB}, {Kind: KInt, Rng: -1, Opt: copt, Key: "q"}}
+			out = append(out, keyType{fs: fs, prim: 0, more: map[int][]string{2: {"100"}}})
 		}
 	}
 	return out
@@ -228,7 +242,7 @@ func keyTypesHTTP2(level int) []keyType {
 						}
 						fs := make([]Field, 2)
 						fs[p], fs[1-p] = pf, sf
-						out = append(out, keyType{fs, p})
+						out = append(out, keyType{fs: fs, prim: p})
 					}
 				}
 			}
@@ -238,7 +252,17 @@ func keyTypesHTTP2(level int) []keyType {
 }
 
 func keyFams(entry string, kt keyType, thorough bool) [][]Tok {
-	return famsFor(entry, kt.fs, kt.prim, thorough, entry == EHTTP)
+	fams := famsFor(entry, kt.fs, kt.prim, thorough, entry == EHTTP)
+	for i, lits := range kt.more {
+		for _, l := range lits {
+			t := tN(l)
+			if canonicalAsString(kt.fs[i], delivery(entry, kt.fs[i])) {
+				t = tS(l)
+			}
+			fams[i] = append(fams[i], t)
+		}
+	}
+	return fams
 }
 
 // withPlacements adds, for a field with a dotted key, every supplied token under the other
